@@ -564,3 +564,107 @@ func c20round2(c *an.Ctx) {
 		r6.Fail("per-segment writer loops", "-", "found %d bloom-filter writer loops with a block cursor, 3 confirmed by hand", n)
 	}
 }
+
+func init() {
+	old := All["C20"].Run
+	All["C20"].Run = func(c *an.Ctx) {
+		old(c)
+		c20literalExact(c)
+		c20reinitPerFile(c)
+	}
+	All["C20"].Rules += " R7 R8"
+}
+
+// c20literalExact — C20.R7.  The primary-key condition compares fragment key ranges with the
+// literals of the WHERE clause.  A literal must enter the condition with its exact value: a
+// float literal cut to an integer (int64(2.5) = 2) turns `k < 2.5` into `k < 2` and prunes the
+// fragments whose keys equal the truncated value.
+func c20literalExact(c *an.Ctx) {
+	const S = "engine/index/sparseindex"
+	r := c.Rule("C20.R7", "K-CONVLINT", S+": no literal of a key condition is converted from floating point to an integer type")
+	n := 0
+	for _, d := range c.P.AllDecls() {
+		if !an.InPkg(d, S) {
+			continue
+		}
+		n++
+		info := d.Pkg.TypesInfo
+		ast.Inspect(d.Decl.Body, func(m ast.Node) bool {
+			ce, ok := m.(*ast.CallExpr)
+			if !ok || len(ce.Args) != 1 {
+				return true
+			}
+			tv, ok := info.Types[ce.Fun]
+			if !ok || !tv.IsType() {
+				return true
+			}
+			to, ok1 := tv.Type.Underlying().(*types.Basic)
+			at := info.TypeOf(ce.Args[0])
+			if !ok1 || at == nil {
+				return true
+			}
+			from, ok2 := at.Underlying().(*types.Basic)
+			if !ok2 || to.Info()&types.IsInteger == 0 || from.Info()&types.IsFloat == 0 {
+				return true
+			}
+			// only values that come out of a query literal (x.Val of an influxql literal node)
+			isLit := false
+			ast.Inspect(ce.Args[0], func(k ast.Node) bool {
+				if sel, ok := k.(*ast.SelectorExpr); ok && sel.Sel.Name == "Val" {
+					if t := info.TypeOf(sel.X); t != nil && strings.Contains(t.String(), "influxql.") {
+						isLit = true
+					}
+				}
+				return true
+			})
+			if isLit {
+				r.Fail(d.Name()+": float literal truncated", c.P.Pos(ce.Pos()), "%s converts the floating-point literal %s to an integer: the fraction is dropped whatever the comparison operator, fragments whose keys equal the truncated value are pruned", d.Name(), types.ExprString(ce.Args[0]))
+			}
+			return true
+		})
+	}
+	r.AddSites(n)
+	r.Floor(100, "functions of the sparse index package scanned")
+}
+
+// c20reinitPerFile — C20.R8.  A skip-index reader is re-initialised for every data file it is
+// asked about; for attached (per data file) indexes the filter data belongs to that one file.
+// Every successful ReInit therefore (re)creates the underlying filter reader — an early
+// `return nil` that keeps the reader of a previous file answers MayBeInFragment from another
+// file's filters and prunes blocks that contain the token.
+func c20reinitPerFile(c *an.Ctx) {
+	const S = "engine/index/sparseindex"
+	r := c.Rule("C20.R8", "K-ORDER", S+": BloomFilter*IndexReader.ReInit — every successful return passes the creation of the filter reader for the file it was given")
+	n := 0
+	for _, spec := range []string{S + ":BloomFilterIndexReader.ReInit", S + ":BloomFilterFullTextIndexReader.ReInit"} {
+		f := fn(r, spec)
+		if f == nil {
+			continue
+		}
+		create := f.Find(an.MNode("r.bf, err = <new filter reader>", func(g *an.Fn, m ast.Node) bool {
+			as, ok := m.(*ast.AssignStmt)
+			if !ok || len(as.Rhs) != 1 {
+				return false
+			}
+			if _, isCall := ast.Unparen(as.Rhs[0]).(*ast.CallExpr); !isCall {
+				return false
+			}
+			for _, l := range as.Lhs {
+				if sel, ok := ast.Unparen(l).(*ast.SelectorExpr); ok && sel.Sel.Name == "bf" {
+					return true
+				}
+			}
+			return false
+		}))
+		okRet := f.Find(an.ReturnsNilErr())
+		n += create.Len()
+		if r.Failed() {
+			continue
+		}
+		// detached (object-store) measurements keep ONE filter file for the whole measurement: an early
+		// return for the same OBS path is sound; the per-file obligation is about attached files
+		f.Precedes(r, create, okRet, an.OrderOpt{Label: "filter reader created ≺ return nil", Unless: []an.AtomPred{an.AtomLike(`OBSFilterPath\)#1$`, true)}})
+	}
+	r.AddSites(n)
+	r.Floor(3, "filter reader creations in ReInit")
+}
